@@ -282,17 +282,33 @@ def net_classify(seg, idx, reason):
 
 
 def net_pipeline(ctx):
-    worlds, steps = (24, 14) if ctx.quick() else (400, 18)
+    # worlds cycle through the transports tcp, tcp, ws, quic, mix (every dial picks one)
+    worlds, steps = (30, 14) if ctx.quick() else (400, 18)
     cargo_build(ctx, ["netdial"])
     summ, _ = harness(ctx, "netdial", ["--worlds", worlds, "--steps", steps, "--seed", ctx.seed, "--out", ctx.path("net.ndjson")], timeout=3000)
     log("NET: %s" % summ)
     lines = read_lines(ctx.path("net.ndjson"))
     nseg, nev, rejects = validate_all(ctx, "NetDial.tla", "NetDial.cfg", lines, tag="n")
+    per, tk = {}, "?"
+    for ln in lines:
+        d = json.loads(ln)
+        if d.get("e") == "reset":
+            tk = d.get("transport", "?")
+            per.setdefault(tk, {"node_logs": 0, "events": 0, "established": 0, "failures": 0, "unsettled": 0})["node_logs"] += 1
+        else:
+            per[tk]["events"] += 1
+            if d.get("e") == "ev" and d.get("k") == "est":
+                per[tk]["established"] += 1
+            elif d.get("e") == "ev" and d.get("k") in ("dial_failure", "list_failures"):
+                per[tk]["failures"] += 1
+            elif d.get("e") == "unsettled":
+                per[tk]["unsettled"] += 1
+    summ = dict(summ, per_transport=per)
     viol = []
     for r in rejects:
         seg, idx = r
         sig = net_classify(seg, idx, r.reason)
-        viol.append({"sig": sig, "what": "real TCP nodes: %s (node log %s)" % (r.reason, seg[0][:200]),
+        viol.append({"sig": sig, "what": "real nodes: %s (node log %s)" % (r.reason, seg[0][:200]),
                      "replay_obj": {"property": "C05", "net": True, "reason": r.reason, "signature": sig,
                                     "segment": [json.loads(x) for x in seg[:idx]]}})
     return summ, nseg, nev, viol
